@@ -76,6 +76,23 @@ func execute(c Case, tag string) vt.Verdict {
 		}
 		return vt.Bad("%d problem(s) after reopen, first: %s (%d/%d ops succeeded)", len(ps), p, ok, len(c.Ops))
 	}
+	// the stored bytes, seen by the independent decoder: raw data of every type (also those without a typed read,
+	// variable-length elements through the global heap), no overlapping structures
+	if data, err := os.ReadFile(file); err == nil {
+		res := hist.CompareIndep(ex.M, data)
+		if res.DecodeErr != "" {
+			return vt.Bad("independent decoder cannot decode the written file: %s (%d/%d ops succeeded)", res.DecodeErr, ok, len(c.Ops))
+		}
+		for _, e := range res.Extents {
+			return vt.Bad("structure placement: %s", e)
+		}
+		for _, p := range res.Problems {
+			if p.Kind == "indep-refcount" {
+				continue
+			}
+			return vt.Bad("independent decoder disagrees with the model: %s (%d/%d ops succeeded)", p, ok, len(c.Ops))
+		}
+	}
 	return vt.Pass()
 }
 
@@ -203,6 +220,7 @@ func gen(t *rapid.T) Case {
 		kind    string
 		resizable bool
 		rank    int
+		spec    *hist.DSpec
 	}
 	var objs []objInfo
 	nobj := rapid.IntRange(2, 6).Draw(t, "nobj")
@@ -213,7 +231,7 @@ func gen(t *rapid.T) Case {
 			objs = append(objs, objInfo{path: p, kind: "group"})
 			return hist.Op{K: "group", Path: p}
 		}
-		d := &hist.DSpec{Type: rapid.SampledFrom([]string{"i32", "f64", "u8", "i16", "f32", "u64", "str"}).Draw(t, "type")}
+		d := &hist.DSpec{Type: rapid.SampledFrom([]string{"i32", "f64", "u8", "i16", "f32", "u64", "str", "cmp:num", "vl:str", "vl:i32"}).Draw(t, "type")}
 		if d.Type == "str" {
 			d.StrSize = 5
 		}
@@ -233,15 +251,35 @@ func gen(t *rapid.T) Case {
 				info.resizable = true
 			}
 		}
+		// one dataset in three is created from the very same dims/chunk/maxdims slice objects as an earlier dataset
+		// (callers commonly reuse a dims variable): the writer must not keep and modify the caller's slices
+		alias := ""
+		if rapid.IntRange(0, 2).Draw(t, "alias") == 0 {
+			for j := len(objs) - 1; j >= 0; j-- {
+				if objs[j].kind == "dataset" && objs[j].spec != nil && objs[j].spec.Type != "str" && d.Type != "str" {
+					src := objs[j].spec
+					d.Dims, d.Chunk, d.MaxDims = append([]uint64{}, src.Dims...), append([]uint64(nil), src.Chunk...), append([]uint64(nil), src.MaxDims...)
+					info.rank, info.resizable = len(d.Dims), src.MaxDims != nil
+					alias = objs[j].path
+					break
+				}
+			}
+		}
+		info.spec = d
 		objs = append(objs, info)
-		return hist.Op{K: "dataset", Path: p, D: d}
+		return hist.Op{K: "dataset", Path: p, D: d, Alias: alias}
 	}
 	c.Ops = append(c.Ops, newObj(0), newObj(1))
 	n := rapid.IntRange(3, vt.N(40, 120)).Draw(t, "nops")
 	links := 0
+	withReopen := rapid.IntRange(0, 4).Draw(t, "withReopen") == 0
+	reopenAt := rapid.IntRange(1, n).Draw(t, "reopenAt")
 	for i := 0; i < n; i++ {
 		o := objs[rapid.IntRange(0, len(objs)-1).Draw(t, "obj")]
 		k := rapid.SampledFrom([]string{"write", "write", "attr", "attr", "attr", "delattr", "resize", "hard", "new"}).Draw(t, "k")
+		if withReopen && i == reopenAt {
+			c.Ops = append(c.Ops, hist.Op{K: "reopen"}) // a session boundary: close, OpenForWrite, handles via OpenDataset
+		}
 		switch {
 		case k == "new":
 			if len(objs) < nobj {
